@@ -163,6 +163,18 @@ def einsum_cases(tier):
                         # log-weights far from 0: products below the range where exp() underflows
                         for backend in ("funsor.einsum.numpy_log", "funsor.einsum.numpy_map"):
                             out.append([eq, backend, "deep"])
+    # operands with three dimensions in every order (a permutation that is not its own inverse needs >= 3 dims), alone and
+    # next to one smaller operand, every output subset in every order of <= 2 symbols
+    s3 = "abc"
+    for p3 in itertools.permutations(s3):
+        p3 = "".join(p3)
+        for other in [None, "", "a", "b", "c", "ab", "ba", "bc", "ca"]:
+            ins = (p3,) if other is None else (p3, other)
+            for r in range(0, 3):
+                for outs in itertools.permutations(s3, r):
+                    eq = ",".join(ins) + "->" + "".join(outs)
+                    for backend in ("numpy", "funsor.einsum.numpy_log", "funsor.einsum.numpy_map"):
+                        out.append([eq, backend, "generic"])
     return out
 
 
@@ -173,7 +185,9 @@ def cases(tier):
 def bounds(tier):
     return {"names_sizes": {n: gen.SIZES[n] for n in NAMES}, "semirings": ["%s/%s" % s for s in SEMIRINGS],
             "routes": ["eager", "normalize+reinterpret", "unfold+reinterpret", "apply_optimizer", "normalize-idempotence"],
-            "einsum_symbols": 3 if tier != "thorough" else 4, "einsum_operands": 3}
+            "einsum_symbols": 3 if tier != "thorough" else 4, "einsum_operands": 3,
+            "einsum_entry_points": ["einsum", "naive_einsum", "naive_contract_einsum", "back-end module einsum on raw arrays", "opt_einsum.contract(backend=module)"],
+            "einsum_three_dim_operands": "every order of abc, alone and next to one operand of <= 2 dims, outputs of <= 2 symbols in every order"}
 
 
 def describe(case):
@@ -331,6 +345,32 @@ def check_einsum(eq, backend, seed, fill="generic"):
                                               "reduced_symbol_count": len(red)},
                 )
         else:
+            n_ok += 1
+    # the semiring back-end modules themselves (funsor.einsum.numpy_log / numpy_map) on the raw arrays, called directly and
+    # through opt_einsum -- the way cnf.py's tensor contraction uses them
+    if backend != "numpy":
+        import importlib
+        import opt_einsum
+
+        mod = importlib.import_module(backend)
+        for name, fn in (("backend_module.einsum", lambda: mod.einsum(eq, *arrays)), ("opt_einsum.contract", lambda: opt_einsum.contract(eq, *arrays, backend=backend))):
+            try:
+                val = np.asarray(fn())
+            except Exception as ex:
+                c = "decline:%s:%s" % (name, type(ex).__name__)
+                counters[c] = counters.get(c, 0) + 1
+                continue
+            want_shape = tuple(sizes[ch] for ch in outs)
+            if val.shape != want_shape:
+                return core.violation(key, "einsum:" + name, "%s(%r) returns shape %s, expected %s" % (name, eq, val.shape, want_shape), ["einsum", eq, backend, fill],
+                                      {"entry": name, "backend": backend, "what": "shape", "fill": fill})
+            for ov, want in ref.items():
+                if not observe.values_equal(val[ov], want, "real"):
+                    return core.violation(
+                        key, "einsum:" + name, "%s(%r) on raw arrays at %s: %s, brute force %s" % (name, eq, dict(zip(outs, ov)), float(val[ov]), float(want)),
+                        ["einsum", eq, backend, fill], {"entry": name, "backend": backend, "what": "value", "fill": fill, "has_repeated_operand_symbols": any(len(set(s)) != len(s) for s in ins),
+                                                      "reduced_symbol_count": len(red)},
+                    )
             n_ok += 1
     if n_ok == 0:
         return core.decline(key, "no-entry-point-completed", counters=counters)
